@@ -12,7 +12,8 @@
           rg_should_prune over the projected data columns   -> true | false | ERR
      (glob (segs (d <sid>) | (s <sid>) ...) (tree T) (m (<sid> <name> ...) ...))    T = (f <name>) | (d <name> T ...)
           names and sids are numbers; (m (<sid> n1 n2 ..)) lists the names segment sid matches
-          -> impl: <p> <p> .. ; spec: <p> <p> ..      p = names joined by /   (expand / spec_expand)
+          -> impl: <p> .. ; spec: <p> .. ; stack: <p> .. | FUEL     p = names joined by /
+             (expand = the proved denotation, spec_expand = declarative, expand_stack = the loop as written, 3000 iterations)
      (deal <p> <n>)   -> deal p k [0..n-1] for k = 0..p-1, then deal_mod:   0,4|1,5|2|3 ; 0,4|1,5|2|3 *)
 
 let atom = function A s -> s | L _ -> failwith "atom expected"
@@ -102,9 +103,12 @@ let run_line (line : string) =
        | Some names -> List.mem (string_of_n nm) names
        | None -> false) in
     let tree = parse_tree t in
-    Printf.printf "impl: %s ; spec: %s\n"
+    let stack = (match expand_stack m (nat_of_int 3000) tree segs with
+        | Some l -> String.concat " " (List.map show_path l)
+        | None -> "FUEL") in
+    Printf.printf "impl: %s ; spec: %s ; stack: %s\n"
       (String.concat " " (List.map show_path (expand m tree segs)))
-      (String.concat " " (List.map show_path (spec_expand m tree segs)))
+      (String.concat " " (List.map show_path (spec_expand m tree segs))) stack
   | L [A "deal"; A p; A n] ->
     let p = int_of_string p and n = int_of_string n in
     let l = List.init n (fun i -> i) in
